@@ -116,3 +116,25 @@ def check_line(line, bad, cl):
             bad("c18_checksum_independent", "rendered line %r: checksum %s, XOR of the text is %d" % (rendered, body[star + 1:], x))
     if (back.gcode, back.subCode, back.parameters, back.lineNumber) != (gcode, sub, prm, probe.lineNumber):
         bad("c18_norm_rendered", "rendered line %r re-parses to %r, expected %r" % (rendered, (back.gcode, back.subCode, back.parameters, back.lineNumber), (gcode, sub, prm, num)))
+
+
+# ---------------------------------------------------------------- secondary engine (thorough tier)
+def fuzz_decode(data):
+    return {"text": data.decode("utf-8", "ignore")}
+
+
+def extra_engines(tier, col, seedval):
+    """atheris campaign on raw bytes (empty corpus and a corpus of example lines)."""
+    if tier != "thorough":
+        return
+    from vlib import fuzz
+    for corpus in ((), (b"N1 G1 X1 Y2*33 ; c\r\n", b" G28\n@ExcludeRegion off\nM117 hi ; x\n", b"g1x1y2\nT0\nG38.2 Z-1\n")):
+        res = fuzz.campaign("C18", 60000, seedval, corpus)
+        col.extra["atheris_available"] += int(res["available"])
+        col.extra["atheris_execs"] += res["execs"]
+        col.extra["atheris_distinct_nontrivial"] += res["nontrivial"]
+        if res["failing_case"]:
+            case, findings = res["failing_case"]
+            col.note(case, findings, {"nontrivial": True})
+            from vlib.runner import Failure
+            raise Failure("atheris: " + findings[0]["msg"])
